@@ -2,6 +2,7 @@ package rules
 
 import (
 	"go/ast"
+	"go/token"
 	"go/types"
 
 	"verif/mlbcheck/chk"
@@ -20,10 +21,14 @@ func init() {
 			"none, otherwise to the named and selected pools (ATTACH); validateBGPAdvPerPool accepts only after the aggregation-length test on every address group and " +
 			"the local-preference compatibility test against every advertisement already attached; advertisementsAreCompatible says `compatible` only for different " +
 			"aggregation lengths, disjoint non-empty peer lists, or no common node (ADV-VALID); node selection is true only for an empty selector list or a matching " +
-			"selector (SELECT); config.For returns a configuration only behind validate, poolsFor and validateConfig (FOR-ORDER).",
+			"selector (SELECT); config.For returns a configuration only behind validate, poolsFor and validateConfig (FOR-ORDER); the family of a network is that " +
+			"of its address, IPv6 exactly when it has no 4-byte form (FAMILY-OF).",
 		NotDecided: "Exactness of ipaddr.Summarize (third-party arithmetic), label-selector semantics, that cidrContainsCIDR is a correct containment test as values.",
 		Run:        runC08,
 		Mutants: []Mutant{
+			{Name: "last-node-selector-wins", File: "internal/config/config.go",
+				Old: "\t\tfor _, s := range labelSelectors {\n\t\t\tnodeLabels := labels.Set(node.Labels)\n\t\t\tif s.Matches(nodeLabels) {\n\t\t\t\tres[node.Name] = true\n\t\t\t\tcontinue OUTER\n\t\t\t}\n\t\t}\n\t}\n\treturn res, nil",
+				New: "\t\tselected := false\n\t\tfor _, s := range labelSelectors {\n\t\t\tnodeLabels := labels.Set(node.Labels)\n\t\t\tselected = s.Matches(nodeLabels)\n\t\t}\n\t\tif selected {\n\t\t\tres[node.Name] = true\n\t\t\tcontinue OUTER\n\t\t}\n\t}\n\treturn res, nil", Expect: "every-matching-node"},
 			{Name: "family-of-cidr-by-mask-length", File: "internal/ipfamily/ipfamily.go",
 				Old: "\tif cidr.IP.To4() == nil {",
 				New: "\tif len(cidr.Mask) == net.IPv6len {", Expect: "FAMILY-OF"},
@@ -386,7 +391,11 @@ func c08Attach(p *chk.Prog, r *chk.Report) {
 	}
 }
 
+// c08PredicateNegated: ADV-VALID found the compatibility predicate used with the opposite polarity at its call.
+var c08PredicateNegated bool
+
 func c08AdvValid(p *chk.Prog, r *chk.Report) {
+	c08PredicateNegated = false
 	x := r.Rule("ADV-VALID", "B path (for-all loops)", "validateBGPAdvPerPool returns nil only after (a) a loop over all address groups of the pool in which, for non-empty groups, the aggregation length of the group's family (V6 when cidrs[0] is not IPv4) is not below lowestMask(group), and (b) a loop over all advertisements already attached in which a different local preference requires advertisementsAreCompatible; advertisementsAreCompatible returns true only for different aggregation lengths, for two non-empty peer lists without a common peer, or after no common node was found, and false for a common node", 8)
 	minInPlace := false
 	f := need(x, p, cfgPkg, "", "validateBGPAdvPerPool")
@@ -459,9 +468,18 @@ func c08AdvValid(p *chk.Prog, r *chk.Report) {
 		okB, whyB := false, "no loop over pool.BGPAdvertisements"
 		for _, rs := range f.RangeLoops(func(e ast.Expr) bool { return f.MatchWith("P.BGPAdvertisements", e, chk.H("P", pool)) != nil }) {
 			other := rangeVal(f, rs)
+			// the predicate may have been turned round (and renamed: the restored name then says the opposite of what it
+			// answers): when its *true* edge always leaves with an error it answers "these two collide"
+			compatPat := "advertisementsAreCompatible(A, B, P)"
+			hs := []chk.HoleCheck{chk.H("A", adv), chk.H("B", other), chk.H("P", pool)}
+			for _, e := range g.EdgesImplying(g.GPat(true, compatPat, hs...)) {
+				if !g.BranchAlways(e, func(n ast.Node) bool { return isErrReturn(f, n) }).Found {
+					c08PredicateNegated = true
+				}
+			}
 			guard := chk.GAnyOf(
 				g.GPat(false, "A.LocalPref != B.LocalPref", chk.H("A", adv), chk.H("B", other)),
-				g.GPat(true, "advertisementsAreCompatible(A, B, P)", chk.H("A", adv), chk.H("B", other), chk.H("P", pool)))
+				g.GPat(!c08PredicateNegated, compatPat, hs...))
 			if len(nilRets) == 1 {
 				whyB = forallBefore(f, g, rs, guard, nilRets[0])
 				okB = whyB == ""
@@ -533,13 +551,14 @@ func c08AdvValid(p *chk.Prog, r *chk.Report) {
 			}
 		}
 		nt := 0
+		yes := !c08PredicateNegated // the constant that says "compatible"
 		for _, rt := range g.Returns() {
 			rr := retResults(rt)
 			if len(rr) != 1 {
 				continue
 			}
 			switch {
-			case ac.IsConstBool(rr[0], true):
+			case ac.IsConstBool(rr[0], yes):
 				nt++
 				ok := g.Dominated(rt, diffLen)
 				if !ok && eq != nil {
@@ -554,7 +573,7 @@ func c08AdvValid(p *chk.Prog, r *chk.Report) {
 					}
 				}
 				x.Check("advertisementsAreCompatible:true#"+itoa(nt), rt.Pos(), ok, "", "two advertisements can be declared compatible although they share aggregation lengths, a peer (an empty peer list means every peer) and a node")
-			case ac.IsConstBool(rr[0], false):
+			case ac.IsConstBool(rr[0], !yes):
 				x.Check("advertisementsAreCompatible:false-needs-common-node", rt.Pos(), g.Dominated(rt, chk.GBool(true, definedBy(g, "B.Nodes[N]", chk.H("B", ad)))), "", "advertisements are declared incompatible without a common node")
 			}
 		}
@@ -590,6 +609,74 @@ func c08Select(p *chk.Prog, r *chk.Report) {
 			x.Check("selectedNodes:mark#"+itoa(n), s.Pos(), ok, "", "a node is selected without an empty selector list or a selector matching its labels")
 		}
 		x.Check("selectedNodes:marks", sn.Pos(), n >= 1, "", "expected the no-selector and the matching-selector site")
+		// the converse: a node that some selector matches is marked, whichever selector it is - the selectors are
+		// alternatives. From a matching selector the iteration over the selectors goes on (or ends) only with the node
+		// marked, or with a flag set to true that nothing in the loop resets and that marks the node behind the loop
+		marks := g.Find(sn.IsAssignPat("R[N.Name]", "true"))
+		for _, outer := range sn.RangeLoops(isParamIdx(sn, 0)) {
+			var inner *ast.RangeStmt
+			for _, rs := range sn.RangeLoops(chk.Any) {
+				if rs != outer && chk.InBody(outer, rs) {
+					inner = rs
+				}
+			}
+			if inner == nil {
+				x.Fail("selectedNodes:every-matching-node", outer.Pos(), "no loop over the selectors inside the loop over the nodes")
+				continue
+			}
+			nodeV := rangeVal(sn, outer)
+			noMatch := g.GPat(false, "S.Matches(L)", chk.H("S", rangeVal(sn, inner)), chk.H("L", definedBy(g, "labels.Set(N.Labels)", chk.H("N", nodeV))))
+			marked := chk.GEvent(func(nd ast.Node) bool {
+				for _, m := range marks {
+					if nd == m.Top {
+						return true
+					}
+				}
+				return false
+			})
+			// sticky flags
+			flags := map[types.Object]bool{}
+			for _, a := range g.Find(sn.IsAssignPat("F", "true")) {
+				if !chk.InBody(inner, a.Node) {
+					continue
+				}
+				fo := sn.ObjOf(a.Node.(*ast.AssignStmt).Lhs[0])
+				sticky := fo != nil
+				for _, other := range assignsTo(sn, fo) {
+					as, isAs := other.(*ast.AssignStmt)
+					if !isAs || len(as.Rhs) != 1 {
+						sticky = false
+						continue
+					}
+					if chk.InBody(inner, as) && !sn.IsConstBool(as.Rhs[0], true) {
+						sticky = false
+					}
+				}
+				// the flag marks the node behind the loop
+				leads := false
+				for _, m := range marks {
+					if chk.InBody(outer, m.Node) && !chk.InBody(inner, m.Node) && g.Dominated(m, chk.GBool(true, sn.IsObj(fo))) {
+						leads = true
+					}
+				}
+				if sticky && leads {
+					flags[fo] = true
+				}
+			}
+			flagged := chk.GEvent(func(nd ast.Node) bool {
+				as, isAs := nd.(*ast.AssignStmt)
+				return isAs && len(as.Lhs) == 1 && flags[sn.ObjOf(as.Lhs[0])] && len(as.Rhs) == 1 && sn.IsConstBool(as.Rhs[0], true)
+			})
+			outerHead, _, _ := g.RangeBlocks(outer)
+			ok := true
+			for _, e := range g.LoopIteration(inner, chk.GOr(noMatch, marked, flagged)) {
+				if e.OK || (e.Break && e.EstablishedBefore(outerHead)) {
+					continue
+				}
+				ok = false
+			}
+			x.Check("selectedNodes:every-matching-node", outer.Pos(), ok, "", "a node whose labels one selector matches can end up not selected (a later selector overrides the match, or a selector is skipped): the advertisement is silently not announced from that node")
+		}
 	}
 	sp := need(x, p, cfgPkg, "", "selectedPools")
 	if sp != nil {
@@ -649,7 +736,13 @@ func c08For(p *chk.Prog, r *chk.Report) {
 	f := need(x, p, cfgPkg, "", "For")
 	if f != nil {
 		g := f.Graph()
-		res := isParamIdx(f, 0)
+		res := func(e ast.Expr) bool {
+			// the resources themselves, or their address (helpers that take the large struct by pointer)
+			if u, isU := ast.Unparen(e).(*ast.UnaryExpr); isU && u.Op == token.AND {
+				e = u.X
+			}
+			return isParamIdx(f, 0)(e)
+		}
 		for _, rt := range g.Returns() {
 			rr := retResults(rt)
 			if len(rr) != 2 || !f.IsNilLit(rr[1]) {
